@@ -26,7 +26,7 @@ RULE = ("eps-NFA / PDA / FST objects whose values are JSON-representable (ints, 
         "Non-trivial: object has >=2 transitions / productions; distinct = case hash.")
 ASSUMPTIONS = ["values are restricted as the property's quantifier says (no epsilon spellings, no ' -> ' / ' / ')"]
 TIERS = {
-    "quick": {"workers": 4, "random": 1500},
+    "quick": {"workers": 8, "random": 3000},
     "thorough": {"workers": 16, "random": 50000, "pytest": True, "hard_timeout": 3000},
 }
 MIN = {"quick": {"C20.FiniteAutomaton.from_networkx": 500, "C20.PDA.from_networkx": 500, "C20.FST.from_networkx": 500,
